@@ -69,7 +69,8 @@ def neg_spec(q):
         for x, (b, _) in zip(xs, q.fields):
             v = (v << b) | (x & mask(b))
         if q.is_nar(xs):
-            return None   # "every reachable quire state": NaR negates to itself by two's complement, nothing claimed
+            # a NaR quire has no sum to negate, but it must stay NaR until cleared (C04): neg() may not turn it into a number
+            return [x & mask(b) for x, (b, _) in zip(xs, q.fields)]
         r = (-v) & mask(total)
         out = []
         sh = total
@@ -93,7 +94,8 @@ def neg_rule(ctx, prog, q):
                    extract=final_state, max_product=20000)
     dec = st['decided_const']
     if dec != st['cells']:
-        ctx.finding('QNEG', '%s::neg' % q.name, 'undecided', 'neg() is not decided on %d of %d state cells (every limb pattern must be decided)' % (st['cells'] - dec, st['cells']))
+        # not an alarm: the body uses something the interpreter does not model; reported as not decided
+        ctx.undecided.setdefault('QNEG', []).append('%s::neg: %d of %d state cells not decided' % (q.name, st['cells'] - dec, st['cells']))
     return dec
 
 
